@@ -13,6 +13,9 @@ the sign of the numerator and a comparison of squares (`gtSqrt`), so no square r
 * `nullVals`  : replay of the recorded subject permutations (`rng.permutation(nx+ny)`) or sign flips
                 (`np.sign(0.5 - rng.rand(1, nx))`, recorded as `v·2^53`)
 * `hits`      : `#{u : null[u] ≥ sz_links[c]}` (p-value = hits / k)
+
+Data are rational (`Cells n`); the driver receives integers and optional dyadic exponents (`exp=` global,
+`cexp=` per cell) so that data in tiny / huge / mixed units are represented exactly.
 -/
 namespace Bct.Nbs
 open Bct
@@ -224,12 +227,16 @@ def parseRat (s : String) : Option Rat :=
     if b = 0 then none else some ((a : Rat) / (b : Rat))
   | _ => none
 
-/-- C-order `x[i, j, s]` -/
-def parseCells (n ns : Nat) (s : String) : Option (Cells n) := do
+/-- `2^e` for an integer exponent (data may be given in exact dyadic units) -/
+def pow2 (e : Int) : Rat := if 0 ≤ e then ((2 ^ e.toNat : Nat) : Rat) else 1 / ((2 ^ (-e).toNat : Nat) : Rat)
+
+/-- C-order `x[i, j, s]`; the value of cell `(i,j)` is the integer times `2^(cexp[i,j])` -/
+def parseCells (n ns : Nat) (s : String) (cexp : AMat Int n) : Option (Cells n) := do
   let xs ← parseInts s
   if xs.length != n * n * ns then none else
   let arr := xs.toArray
-  some (AMat.ofFn fun i j => (List.range ns).map fun t => ((arr[(i.val * n + j.val) * ns + t]?.getD 0 : Int) : Rat))
+  some (AMat.ofFn fun i j => (List.range ns).map fun t =>
+    ((arr[(i.val * n + j.val) * ns + t]?.getD 0 : Int) : Rat) * pow2 (cexp.get i j))
 
 def parseTail (s : String) : Option Tail :=
   if s == "both" then some .both else if s == "left" then some .left else if s == "right" then some .right else none
@@ -241,8 +248,11 @@ def step (line : String) : String :=
     let n ← (← lookup kv "n").toNat?
     let nx ← (← lookup kv "nx").toNat?
     let ny ← (← lookup kv "ny").toNat?
-    let x ← parseCells n nx (← lookup kv "x")
-    let y ← parseCells n ny (← lookup kv "y")
+    let e0 ← (match lookup kv "exp" with | none => some (0 : Int) | some t => t.toInt?)
+    let ce ← (match lookup kv "cexp" with | none => some (AMat.ofFn fun _ _ => (0 : Int)) | some t => parseMat n t)
+    let cexp : AMat Int n := AMat.ofFn fun i j => e0 + ce.get i j
+    let x ← parseCells n nx (← lookup kv "x") cexp
+    let y ← parseCells n ny (← lookup kv "y") cexp
     let thr ← parseRat (← lookup kv "thr")
     let k ← (← lookup kv "k").toNat?
     let paired ← (match lookup kv "paired" with | some "1" => some true | some "0" => some false | _ => none)
